@@ -30,5 +30,5 @@ def run(run):
         bounds={'specialized': 'x.to_jmespath() == Variable::from_serializable(x) for EVERY x of i8..i64, isize, u8..u64, usize, finite f32/f64, bool, (), and ASCII &str of <= 2 bytes (crate built with --features specialized)',
                 'specialized (M)': 'ToJmespath for serde_json::Value and &Value and the TryFrom impls behind them on solver-chosen Value trees (depth 1 with fully symbolic numbers, depth 2 structure), MIR generated with --features specialized',
                 'sync': 'MIR regenerated with --features sync: the compliance suite (a rotating quarter in quick) reproduces the same outcomes through the encoder'},
-        outside=['equivalence of whole compile/search runs between separately built binaries is a differential test, not a solver query: not claimed', 'Variable / Rcvar / String specialisations (identity wrappers), 'non-finite floats (the two paths differ by design: error vs null)'],
+        outside=['equivalence of whole compile/search runs between separately built binaries is a differential test, not a solver query: not claimed', 'Variable / Rcvar / String specialisations (identity wrappers)', 'non-finite floats (the two paths differ by design: error vs null)'],
         assumes=['Rc::drop_slow and fmt::format are stubbed'], features=('specialized',), keyprefix='c17')
